@@ -133,6 +133,8 @@ static void mcount_get_struct_arg(struct mcount_arg_context *ctx, struct uftrace
 {
 	struct uftrace_arg_spec reg_spec = {
 		.type = ARG_TYPE_REG,
+		/* whole 8 bytes of an xmm register (movsd): half of a struct { double a, b; } */
+		.size = sizeof(long),
 	};
 	void *ptr = ctx->val.p;
 	int i;
